@@ -24,7 +24,7 @@ REPO = os.environ.get("SLV_REPO", "/repo")
 COQ = os.path.join(VERIF, "coq")
 HARNESS = os.path.join(VERIF, "harness")
 CACHE = os.path.join(VERIF, ".cache")
-TARGET = os.path.join(CACHE, "target")
+TARGET = os.environ.get("SLV_TARGET", os.path.join(CACHE, "target"))
 GUARD = "searchlite_verif"
 FORBIDDEN = re.compile(
     r"\b(Admitted|admit|Axiom|Axioms|Parameter|Parameters|Conjecture|Conjectures|Hypothesis|Hypotheses|Variable|Variables|"
@@ -134,6 +134,10 @@ class Ctx:
 
     # ---------------------------------------------------------------- BUILD
     def harness_build(self, bins, timeout=2400):
+        tmpl = open(os.path.join(HARNESS, "Cargo.toml.in")).read().replace("@REPO@", REPO)
+        ct = os.path.join(HARNESS, "Cargo.toml")
+        if not os.path.exists(ct) or open(ct).read() != tmpl:
+            open(ct, "w").write(tmpl)
         lock_src = os.path.join(REPO, "Cargo.lock")
         lock_dst = os.path.join(HARNESS, "Cargo.lock")
         if not os.path.exists(lock_dst):
